@@ -151,6 +151,7 @@ def block_insert_family(full):
     texts = ["abc\ndef", "ab\n\ncdef", "界x\ny", "a"] + (["abc\ndef\n", "x\nyz\nw"] if full else [])
     motions = ["j", "j$", "$", "jl", "k$", "G$"] + (["jj$", "l", "kl"] if full else [])
     edits1 = ["<delete>", "<backspace>", "<left>", "<right>", "z", "<paste:pq>"]
+    ctrl_o = [["<c-o>", "x"], ["<c-o>", "D"], ["<c-o>", "d", "d"], ["<c-o>", "d", "w"]]
     for t in texts:
         for start in ["gg", "G", "gg$"] if full else ["gg", "G"]:
             for m in motions:
@@ -158,6 +159,8 @@ def block_insert_family(full):
                     pre = tokenize("<escape>" + start + "<c-v>" + m + ia)
                     for e in edits1:
                         yield dict(mode="vi", multiline=True, text=t, cursor=0, history=["h"]), pre + [e, "<escape>"]
+                    for co in ctrl_o:       # temporary navigation mode from insert-multiple mode + a deleting command
+                        yield dict(mode="vi", multiline=True, text=t, cursor=0, history=["h"]), pre + co + ["z", "<escape>"]
                     pairs = [(a, b) for a in edits1 for b in edits1] if full else [("<delete>", "<delete>"), ("<right>", "<delete>"), ("z", "<backspace>"), ("<left>", "<delete>")]
                     for a, b in pairs:
                         yield dict(mode="vi", multiline=True, text=t, cursor=0, history=["h"]), pre + [a, b, "<escape>"]
@@ -178,3 +181,54 @@ def search_family(full):
                     for ml in ((False, True) if full else (False,)):
                         yield (dict(mode="vi", multiline=ml, text=t, cursor=cur, history=["hello"]),
                                st + list(p) + e + ["x"])
+
+
+def ctrl_o_family(full):
+    """Control-O (one command in temporary navigation mode) from every insert
+    sub-mode - insert, replace, after a digraph prefix, insert-multiple is in
+    block_insert_family - followed by deleting / changing commands, then typing
+    goes on."""
+    texts = ["hello world", "ab\ncd", "x", ""] + (["界 wide\n\nlast"] if full else [])
+    enter = ["i", "a", "A", "I", "R", "o", "s"] + (["O", "cw", "C"] if full else [])
+    cmds = ["x", "X", "D", "dd", "dw", "d$", "db", "J", "p", "P", "u", "~", "rz", "2x", "yy", "cw", "$", "0", "j", "k", "<escape>", "<c-o>", "v", "ddp"]
+    if not full:
+        cmds = cmds[:14] + ["$", "<escape>"]
+        texts = texts[:3]
+    for t in texts:
+        for e in enter:
+            for c in cmds:
+                yield dict(mode="vi", multiline=True, text=t, cursor=min(1, len(t)), history=["h1"], clipboard="Q"), \
+                    tokenize("<escape>" + e + "<c-o>" + c) + ["z", "<escape>"]
+
+
+def history_count_family(full):
+    """Counts around the number of history entries with G / gg (go_to_history),
+    history keys with counts, beginning/end-of-history; then a key that reads and
+    edits the text."""
+    hists = [[], ["a"], ["a", "bb", "ccc"]] + ([["one", "two"], ["x"] * 5] if full else [])
+    for mode in ("vi", "emacs"):
+        for h in hists:
+            n = len(h)
+            counts = sorted(set([0, 1, 2, n - 1, n, n + 1, n + 2, n + 3, n + 4]) - {-1})
+            for c in counts:
+                if mode == "vi":
+                    seqs = ["%dG" % c, "%dgg" % c, "%dk" % c, "%dj" % c, "k%dG" % c, "%d<c-up>" % c, "%d<pageup>" % c, "gg%dj" % c]
+                    for q in seqs:
+                        yield dict(mode="vi", multiline=False, text="cur", cursor=1, history=h), tokenize("<escape>" + q) + ["x", "i", "z", "<escape>"]
+                else:
+                    pre = "".join("<escape>%s" % d for d in str(c))
+                    seqs = [pre + "<up>", pre + "<down>", pre + "<c-up>", "<escape><" + pre + "<down>", pre + "<escape>>", pre + "<pageup>", "<up>" + pre + "<c-down>"]
+                    for q in seqs:
+                        yield dict(mode="emacs", multiline=False, text="cur", cursor=1, history=h), tokenize(q) + ["z", "<c-a>"]
+
+
+def search_history_family(full):
+    """A search whose match lies in another history entry, then the search
+    text objects n / N under an operator (and the plain n / N motions)."""
+    hists = [["zzzzzzzz x here"], ["ax", "bbbbbbbbbbbx", "c"]] + ([["x"], ["no match"]] if full else [])
+    for h in hists:
+        for t in ("ab", "x ab x", ""):
+            for start in ("/x<c-m>", "?x<c-m>", "<c-r>x<c-m>"):
+                for mv in (("", "j", "k", "jj", "G") if full else ("", "j", "k")):
+                    for op in (("dn", "dN", "yn", "cN", "n", "N", "2dn", "g~n", ">n") if full else ("dn", "dN", "yn", "cN", "n", ">n")):
+                        yield dict(mode="vi", multiline=False, text=t, cursor=0, history=h), tokenize("<escape>" + start + mv + op) + ["<escape>", "x"]
